@@ -26,7 +26,10 @@
 (*   RoundTrip after the authorizer learnt the challenge (authed).         *)
 (*   environment = the registry "personality": serves the blob directly    *)
 (*   or redirects to a location (L1/L2); locations expire (403); the       *)
-(*   registry may demand Authorization (401); locations may refuse HEAD.   *)
+(*   registry may demand Authorization (401); locations may refuse HEAD;   *)
+(*   the registry itself may answer 403 once (DenyReg: its own signed URL  *)
+(*   / session expired), which makes a fetcher that was resolved to the    *)
+(*   registry refresh -- possibly into a redirect.                         *)
 (*                                                                         *)
 (* Deliberate deviations: the 400 -> single-range fallback, multipart      *)
 (* bodies and the retryablehttp wrapper are not modelled (they do not      *)
@@ -54,12 +57,13 @@ Actors == Procs \cup {"res"}
 
 VARIABLES
     mode, loc, valid, needAuth, headOK, envn,     \* the registry personality
+    regDeny,                                      \* the registry answers its next (authorized) request with 403
     url, header,                                  \* f.url, f.header ("none" before the fetcher exists)
     authed,                                       \* the docker authorizer holds a handler for the registry host
     pc, kind, u, h, retry, nu, nh, att, ops, res, \* per actor
     last                                          \* observation
 
-env    == <<mode, loc, valid, needAuth, headOK, envn>>
+env    == <<mode, loc, valid, needAuth, headOK, envn, regDeny>>
 shared == <<url, header, authed>>
 locals == <<pc, kind, u, h, retry, nu, nh, att, ops, res>>
 core   == <<env, shared, locals>>
@@ -72,6 +76,7 @@ SendStages == {"send", "refresh", "redirect", "head", "get"}
 ----------------------------------------------------------------------------
 Init ==
     /\ mode = "direct" /\ loc = "L1" /\ valid = Locs /\ needAuth = FALSE /\ headOK = TRUE /\ envn = 0
+    /\ regDeny = FALSE
     /\ url = "none" /\ header = "None" /\ authed = FALSE
     /\ pc = [a \in Actors |-> IF a = "res" THEN "unborn" ELSE "idle"]
     /\ kind = [a \in Actors |-> "none"]
@@ -88,13 +93,14 @@ Boot(m, na, ho) ==
     /\ pc["res"] = "unborn"
     /\ mode' = m /\ needAuth' = na /\ headOK' = ho
     /\ pc' = [pc EXCEPT !["res"] = "redirect"]
-    /\ UNCHANGED <<loc, valid, envn, shared, kind, u, h, retry, nu, nh, att, ops, res>>
+    /\ UNCHANGED <<loc, valid, envn, regDeny, shared, kind, u, h, retry, nu, nh, att, ops, res>>
     /\ last' = [act |-> "Boot", mode |-> m, needAuth |-> na, headOK |-> ho]
 
 (* the registry and the locations                                           *)
 Resp(host, meth, au) ==
     IF host = "Reg"
     THEN IF needAuth /\ au = "None" THEN "401"
+         ELSE IF regDeny THEN "403"
          ELSE IF mode = "direct" THEN "ok" ELSE "redir"
     ELSE IF host \notin valid THEN "403"
          ELSE IF meth = "HEAD" /\ ~headOK THEN "405"
@@ -105,8 +111,18 @@ SwitchMode ==
     /\ envn < MaxEnv
     /\ mode' = IF mode = "direct" THEN "redir" ELSE "direct"
     /\ envn' = envn + 1
-    /\ UNCHANGED <<loc, valid, needAuth, headOK, shared, locals>>
+    /\ UNCHANGED <<loc, valid, needAuth, headOK, regDeny, shared, locals>>
     /\ last' = [act |-> "Env", what |-> "switch", l |-> ""]
+
+\* the registry will answer its next authorized request with 403 (once)
+DenyReg ==
+    /\ pc["res"] # "unborn"
+    /\ envn < MaxEnv
+    /\ ~regDeny
+    /\ regDeny' = TRUE
+    /\ envn' = envn + 1
+    /\ UNCHANGED <<mode, loc, valid, needAuth, headOK, shared, locals>>
+    /\ last' = [act |-> "Env", what |-> "deny", l |-> ""]
 
 Expire(L) ==
     /\ pc["res"] # "unborn"
@@ -115,7 +131,7 @@ Expire(L) ==
     /\ valid' = valid \ {L}
     /\ loc' = IF loc = L THEN Other(L) ELSE loc
     /\ envn' = envn + 1
-    /\ UNCHANGED <<mode, needAuth, headOK, shared, locals>>
+    /\ UNCHANGED <<mode, needAuth, headOK, regDeny, shared, locals>>
     /\ last' = [act |-> "Env", what |-> "expire", l |-> L]
 
 (* workers                                                                  *)
@@ -214,11 +230,14 @@ Send(a, au) ==
                              ELSE /\ pc' = [pc EXCEPT ![a] = IF st = "head" THEN "get" ELSE "failed"]
                                   /\ UNCHANGED <<url, header>>
                           /\ UNCHANGED <<u, h, nu, nh, res>>
-    /\ UNCHANGED <<env, kind, retry, ops>>
+    \* the one 403 of the registry is used up by the request that receives it
+    /\ regDeny' = (regDeny /\ ~(HostOf(a) = "Reg" /\ Resp("Reg", MethOf(a), au) = "403"))
+    /\ UNCHANGED <<mode, loc, valid, needAuth, headOK, envn, kind, retry, ops>>
 
 Next ==
     \/ \E m \in Modes, na \in AuthModes, ho \in HeadModes : Boot(m, na, ho)
     \/ SwitchMode
+    \/ DenyReg
     \/ \E L \in Locs : Expire(L)
     \/ \E p \in Procs, k \in {"fetch", "check"} : Start(p, k)
     \/ \E p \in Procs : ReadURL(p)
